@@ -218,6 +218,9 @@ func exchange(addr string, cmd *proto.Command, wait time.Duration) ([]byte, erro
 	if _, err := conn.Write(buf); err != nil {
 		return nil, nil
 	}
+	// half-close: after this command the node sees EOF and closes, so a command
+	// that produces no response does not make us wait for the deadline
+	conn.(*net.TCPConn).CloseWrite()
 	conn.SetReadDeadline(time.Now().Add(wait))
 	hdr := make([]byte, 8)
 	if _, err := io.ReadFull(conn, hdr); err != nil {
